@@ -44,19 +44,39 @@ Definition bit (b : bool) (w : Z) : Z := if b then w else 0%Z.
 
 (* one record: [sends; flags; buffered bytes]
    flags = 32*closereq + 16*descriptor closed in this op + 8*error event + 4*disconnect event
-           + 2*closed afterwards + writer interest afterwards;
+           + 2*closed afterwards + writer interest afterwards (+ 64 if the model met a transition it does not
+           transcribe: never equal to an implementation record);
    closereq and the number of buffered bytes are internal (read from _closeflag/_closeq and
    _buffer/_buffers): compared only when the harness could read them ([withint]) *)
+Definition tables (st : state) : ostate := match st with Open s => s | Closed s => s end.
+Definition is_unmodelled (e : ev) := match e with Unmodelled => true | _ => false end.
+
 Definition enc_rec (withint : bool) (r : list ev * state) : T :=
   let '(evs, st) := r in
-  let cr := match st with Closed => false | Open s => withint && closereq s end in
-  let nb := match st with Closed => 0%nat | Open s => if withint then length (concat (buf s)) else 0%nat end in
+  let s := tables st in
+  let cr := withint && closereq s in
+  let nb := if withint then length (concat (buf s)) else 0%nat in
   Tl [ Tl (flat_map enc_send evs);
-       Tn (bit cr 32 + bit (existsb is_sockclose evs) 16 + bit (existsb is_error evs) 8
-           + bit (existsb is_disc evs) 4
-           + bit (match st with Closed => true | Open _ => false end) 2
-           + bit (match st with Closed => false | Open s => writing s end) 1)%Z;
+       Tn (bit (existsb is_unmodelled evs) 64 + bit cr 32 + bit (existsb is_sockclose evs) 16
+           + bit (existsb is_error evs) 8 + bit (existsb is_disc evs) 4
+           + bit (match st with Closed _ => true | Open _ => false end) 2
+           + bit (writing s) 1)%Z;
        Tnat nb ].
 
 Definition obs_run (k : kind) (withint : bool) (ops : list op) : T :=
   Tlist (enc_rec withint) (trace (fixed k) init ops).
+
+(* ---- Server with its tables: per-operation records of the connections the operation addresses *)
+Fixpoint mtrace (socks : list nat) (m : srv) (ops : list mop) : list (nat * (list ev * state)) :=
+  match ops with
+  | [] => []
+  | o :: r =>
+      let '(m1, e1) := mstep m o in
+      let who := match o with On t _ => [t] | CloseAll => socks end in
+      map (fun t => (t, (projev t e1, view m1 t))) who ++ mtrace socks m1 r
+  end.
+
+Definition obs_mrun (withint : bool) (socks : list nat) (ops : list mop) : T :=
+  let tr := mtrace socks (fresh socks) ops in
+  Tlist (fun s => Tlist (fun r => enc_rec withint (snd r))
+                        (filter (fun r => Nat.eqb (fst r) s) tr)) socks.
